@@ -67,6 +67,9 @@ var querySites = map[string]bool{
 	"model3d.Mesh.IterateSorted": true, "model2d.Mesh.IterateSorted": true,
 	"render3d.RecursiveRayTracer.RayVariance": true, "render3d.BidirPathTracer.RayVariance": true,
 	"render3d.RecursiveRayTracer.Render": true, "render3d.BidirPathTracer.Render": true,
+	// derivations of a shared union (optimize_private_copy_eq_sequential)
+	"model3d.JoinedSolid.Optimize": true, "model2d.JoinedSolid.Optimize": true,
+	"model3d.JoinedSolid.Contains": true, "model2d.JoinedSolid.Contains": true,
 }
 
 // Query closures that must still be found.
@@ -172,6 +175,9 @@ var queryMethodNames = map[string]bool{
 	// read-only use of one renderer: the entry points of RayCaster, RecursiveRayTracer,
 	// BidirPathTracer (see rendererEntryNames)
 	"Render": true, "RenderVariance": true, "RayVariance": true,
+	// read-only derivations: "creates a version of the solid" / a copy of the mesh
+	// (optimize_private_copy_eq_sequential)
+	"Optimize": true, "Copy": true, "DeepCopy": true, "MapCoords": true,
 }
 
 // The renderers' entry points are query methods only on the exported renderer types: the
@@ -212,6 +218,11 @@ func analysePackage(dir string) (*pkgInfo, error) {
 			return nil, err
 		}
 		parsed = append(parsed, f)
+	}
+	// plain functions of the package that store into the elements of a slice argument
+	// (GroupBounders, GroupTriangles, ...): handing them memory of the receiver writes it
+	pw := paramWriters(parsed)
+	for _, f := range parsed {
 		for _, d := range f.Decls {
 			fd, ok := d.(*ast.FuncDecl)
 			if !ok || fd.Recv == nil || fd.Body == nil || len(fd.Recv.List) == 0 || len(fd.Recv.List[0].Names) == 0 {
@@ -324,6 +335,18 @@ func analysePackage(dir string) (*pkgInfo, error) {
 							m.writes = append(m.writes, exprStr(fset, x))
 						}
 					}
+					// a function that stores into the elements of its k-th argument is handed
+					// memory of the receiver: the receiver itself when it is a value of a slice
+					// type (`GroupBounders(j)`), a slice expression of it, a field of it
+					// (`GroupTriangles(m.cache)`), or a local alias of its backing array
+					if name := calleeName(x.Fun); name != "" {
+						for k := range pw[name] {
+							if k < len(x.Args) && recvMemory(x.Args[k], recv, ptrRecv, alias) {
+								m.direct = true
+								m.writes = append(m.writes, exprStr(fset, x)+" ("+name+" stores into the elements of its argument "+fmt.Sprint(k)+")")
+							}
+						}
+					}
 				case *ast.SelectorExpr:
 					// recv.M(...) or the method value recv.M: a method of the same type
 					if id, ok := x.X.(*ast.Ident); ok && id.Name == recv {
@@ -386,6 +409,211 @@ func analysePackage(dir string) (*pkgInfo, error) {
 	sort.Strings(info.queryAll)
 	sort.Strings(info.queryMut)
 	return info, nil
+}
+
+// calleeName: the bare name of a called plain function, `F(...)` or the generic instantiation
+// `F[T](...)`; "" for everything else (methods, other packages, function values).
+func calleeName(fun ast.Expr) string {
+	switch f := fun.(type) {
+	case *ast.Ident:
+		return f.Name
+	case *ast.IndexExpr:
+		if id, ok := f.X.(*ast.Ident); ok {
+			return id.Name
+		}
+	case *ast.IndexListExpr:
+		if id, ok := f.X.(*ast.Ident); ok {
+			return id.Name
+		}
+	case *ast.ParenExpr:
+		return calleeName(f.X)
+	}
+	return ""
+}
+
+// fieldRoot: the root identifier of a chain of selectors / parens / stars without calls and
+// without index expressions (`recv`, `recv.f`, `recv.a.b`).
+func fieldRoot(e ast.Expr) *ast.Ident {
+	switch x := e.(type) {
+	case *ast.Ident:
+		return x
+	case *ast.SelectorExpr:
+		return fieldRoot(x.X)
+	case *ast.ParenExpr:
+		return fieldRoot(x.X)
+	case *ast.StarExpr:
+		return fieldRoot(x.X)
+	}
+	return nil
+}
+
+// recvMemory: does the argument share a backing array with the receiver?  The receiver itself
+// (value receiver: a named slice type; a struct would be a copy, but then the callee could not
+// index it), a field of the receiver, a slice expression of either, or a local alias.
+func recvMemory(arg ast.Expr, recv string, ptrRecv bool, alias map[string]bool) bool {
+	if se, ok := arg.(*ast.SliceExpr); ok {
+		arg = se.X
+	}
+	if id, ok := arg.(*ast.Ident); ok {
+		return alias[id.Name] || (id.Name == recv && !ptrRecv)
+	}
+	if r := fieldRoot(arg); r != nil && r.Name == recv {
+		return true
+	}
+	return false
+}
+
+// Functions from outside the repository that store into the elements of their first argument.
+var externalSliceWriters = map[string]bool{"sort.Slice": true, "sort.SliceStable": true, "sort.Sort": true,
+	"sort.Stable": true, "sort.Ints": true, "sort.Float64s": true, "sort.Strings": true, "rand.Shuffle": false}
+
+// paramWriters computes, for every plain function (no receiver) of a package, the indices of
+// the parameters whose ELEMENTS it stores into: `p[i] = v`, `p[i]++`, `copy(p, …)`,
+// `sort.Slice(p, …)`, `append(p[:k], …)`, the same through a local `q := p[a:b]`, or by handing
+// `p` / `p[a:b]` to a function of the package that does (fixed point; callees resolved by bare
+// name).  A store through an element (`p[i].f = v`, p a slice of pointers) is not a store into
+// the slice; a parameter that the body rebinds to another value is not followed.
+func paramWriters(files []*ast.File) map[string]map[int]bool {
+	type fn struct {
+		name   string
+		params []string
+		body   *ast.BlockStmt
+	}
+	var fns []fn
+	for _, f := range files {
+		for _, d := range f.Decls {
+			fd, ok := d.(*ast.FuncDecl)
+			if !ok || fd.Recv != nil || fd.Body == nil || fd.Type.Params == nil {
+				continue
+			}
+			var ps []string
+			for _, fld := range fd.Type.Params.List {
+				if len(fld.Names) == 0 {
+					ps = append(ps, "_")
+				}
+				for _, nm := range fld.Names {
+					ps = append(ps, nm.Name)
+				}
+			}
+			fns = append(fns, fn{fd.Name.Name, ps, fd.Body})
+		}
+	}
+	res := map[string]map[int]bool{}
+	for changed := true; changed; {
+		changed = false
+		for _, f := range fns {
+			for k, pname := range f.params {
+				if pname == "_" || res[f.name][k] {
+					continue
+				}
+				al := map[string]bool{pname: true}
+				// a parameter that is rebound in the body (`p = removeColinearPoints(p)`: a working
+				// copy) no longer names the caller's array: not followed (towards "no write")
+				rebound := false
+				ast.Inspect(f.body, func(n ast.Node) bool {
+					as, ok := n.(*ast.AssignStmt)
+					if !ok || as.Tok == token.DEFINE || len(as.Lhs) != len(as.Rhs) {
+						return true
+					}
+					for i, l := range as.Lhs {
+						if id, ok := l.(*ast.Ident); ok && id.Name == pname {
+							if se, ok := as.Rhs[i].(*ast.SliceExpr); ok {
+								if x, ok := se.X.(*ast.Ident); ok && x.Name == pname {
+									continue
+								}
+							}
+							rebound = true
+						}
+					}
+					return true
+				})
+				if rebound {
+					continue
+				}
+				// locals cut out of the parameter
+				ast.Inspect(f.body, func(n ast.Node) bool {
+					as, ok := n.(*ast.AssignStmt)
+					if !ok || len(as.Lhs) != len(as.Rhs) {
+						return true
+					}
+					for i, r := range as.Rhs {
+						if se, ok := r.(*ast.SliceExpr); ok {
+							if id, ok := se.X.(*ast.Ident); ok && al[id.Name] {
+								if l, ok := as.Lhs[i].(*ast.Ident); ok && l.Name != "_" {
+									al[l.Name] = true
+								}
+							}
+						}
+					}
+					return true
+				})
+				isP := func(e ast.Expr) bool { // p or p[a:b]
+					if se, ok := e.(*ast.SliceExpr); ok {
+						e = se.X
+					}
+					id, ok := e.(*ast.Ident)
+					return ok && al[id.Name]
+				}
+				elem := func(e ast.Expr) bool { // p[i]
+					ix, ok := e.(*ast.IndexExpr)
+					if !ok {
+						return false
+					}
+					id, ok := ix.X.(*ast.Ident)
+					return ok && al[id.Name]
+				}
+				writes := false
+				ast.Inspect(f.body, func(n ast.Node) bool {
+					switch x := n.(type) {
+					case *ast.AssignStmt:
+						if x.Tok != token.DEFINE {
+							for _, l := range x.Lhs {
+								if elem(l) {
+									writes = true
+								}
+							}
+						}
+					case *ast.IncDecStmt:
+						if elem(x.X) {
+							writes = true
+						}
+					case *ast.CallExpr:
+						if id, ok := x.Fun.(*ast.Ident); ok && len(x.Args) > 0 {
+							if id.Name == "copy" && isP(x.Args[0]) {
+								writes = true
+							}
+							if id.Name == "append" {
+								if se, ok := x.Args[0].(*ast.SliceExpr); ok && isP(se) {
+									writes = true
+								}
+							}
+						}
+						if sel, ok := x.Fun.(*ast.SelectorExpr); ok && len(x.Args) > 0 {
+							if pk, ok := sel.X.(*ast.Ident); ok && externalSliceWriters[pk.Name+"."+sel.Sel.Name] && isP(x.Args[0]) {
+								writes = true
+							}
+						}
+						if name := calleeName(x.Fun); name != "" {
+							for j := range res[name] {
+								if j < len(x.Args) && isP(x.Args[j]) {
+									writes = true
+								}
+							}
+						}
+					}
+					return true
+				})
+				if writes {
+					if res[f.name] == nil {
+						res[f.name] = map[int]bool{}
+					}
+					res[f.name][k] = true
+					changed = true
+				}
+			}
+		}
+	}
+	return res
 }
 
 // Constructors that turn a function literal into a value of one of the query interfaces.
@@ -689,6 +917,11 @@ func globalWriters(files []*ast.File) map[string][]string {
 // Mutators of types from outside the repository that the anchored files call on captured state.
 var externalIndexedSetters = map[string]bool{"Set": true, "SetGray": true}
 
+// Methods of *math/rand.Rand that advance the generator's state.
+var rngMethods = map[string]bool{"Int63": true, "Int31": true, "Int": true, "Intn": true, "Int63n": true, "Int31n": true,
+	"Uint32": true, "Uint64": true, "Float64": true, "Float32": true, "NormFloat64": true, "ExpFloat64": true,
+	"Perm": true, "Shuffle": true, "Seed": true}
+
 // ---------------------------------------------------------------- worker analysis
 
 type wctx struct {
@@ -921,6 +1154,17 @@ func (w *wctx) expr(e ast.Node, locked bool, stmtCall *ast.CallExpr) {
 					if mentions(a, w.own) {
 						ownArgs = true
 					}
+				}
+				// a generator made by rand.New is not safe for concurrent use: drawing from one that
+				// is captured from outside the worker (a variable, not the package rand, whose
+				// top-level functions lock) is a read-modify-write of its state
+				if id, ok := se.X.(*ast.Ident); ok && rngMethods[name] && id.Obj != nil && id.Obj.Kind == ast.Var && !w.pkg.mutating[name] && !w.pkg.pure[name] {
+					if locked {
+						w.add("locked", x.Fun)
+					} else {
+						w.add("sharedMutCall", x.Fun)
+					}
+					break
 				}
 				if externalIndexedSetters[name] && (ownArgs || !w.pkg.mutating[name]) {
 					if ownArgs {
